@@ -874,6 +874,9 @@ class CallMixin(object):
             return [(st, core.ufun("str_" + name, [recv] + [a for a in args if a.ty in (STR, INT)], STR))]
         return h
 
+    def m_str_isupper(self, recv, args, kw, st, node):
+        return [(st, core.ufun("str_isupper", [recv], BOOL))]
+
     m_str_lower = _str_uf("lower")
     m_str_upper = _str_uf("upper")
     m_str_strip = _str_uf("strip")
